@@ -63,6 +63,10 @@ def run_shard(shard):
             Z["Normal"] = lambda: D.Normal(jr.normal(ks[2], (3,)), jnp.exp(0.3 * jr.normal(ks[3], (3,))))
             Z["affine"] = lambda: D.Transformed(D.Normal(jnp.zeros(3), jnp.ones(3)), B.Affine(jr.normal(ks[4], (3,)), jnp.exp(0.3 * jr.normal(ks[5], (3,)))))
             Z["mixture"] = lambda: D.VmapMixture(eqx.filter_vmap(D.Normal)(jr.normal(ks[2], (3, 3)), jnp.ones((3, 3))), jnp.array([1.0, 2.0, 0.5]))
+            # restricted supports: about a third of the rows of a standard-normal batch lie outside (log_prob = -inf there, so the
+            # defining loss, minus the *mean* log-probability, is +inf)
+            Z["lognormal"] = lambda: D.LogNormal(jr.normal(ks[2], (3,)) * 0.3, jnp.exp(0.3 * jr.normal(ks[3], (3,))))
+            Z["uniform"] = lambda: D.Uniform(jnp.full((3,), -2.5), jnp.array([2.5, 3.0, 4.0]))
         return Z
 
     def variants(m, r):
@@ -113,13 +117,15 @@ def run_shard(shard):
                             continue
                         rec.count("ml_loss_comparisons")
                         rec.count(f"ml_layout[{lay}]")
-                        if not abs(got - ref) <= 1e-10 * (1 + abs(ref)):
+                        if not np.isfinite(ref):
+                            rec.count("ml_batches_with_rows_outside_support")
+                        if not (got == ref if not np.isfinite(ref) else abs(got - ref) <= 1e-10 * (1 + abs(ref))):
                             v("ml.value", f"MaximumLikelihoodLoss({nm}/{vn}, {lay}: x {xs_}, condition {cs_ if cond else None}) = {got!r} but -mean(log_prob) over the "
                                           f"{lps.shape} batch = {ref!r}", it)
                     if vn != "plain":
                         rec.nontrivial.add(chash("ml", nm, vn, cond, rep, shard["shard"]))
         # ---------------------------------------------------------- ELBO / stick the landing -
-        Z = models(key, False)
+        Z = {k_: f_ for k_, f_ in models(key, False).items() if k_ not in ("lognormal", "uniform")}
         for nm in Z:
             for vn, m in variants(Z[nm](), r).items():
                 if not mine():
@@ -180,14 +186,17 @@ def run_shard(shard):
             def _sample(self, key, condition=None):
                 return jnp.zeros(self.shape)
 
-        def check_contrastive(loss_of, n, nc, it):
-            """one evaluation of a contrastive loss object on the tag distribution, checked against the recorded log_prob events"""
+        def check_contrastive(loss_of, n, nc, it, sharp=1.0):
+            """one evaluation of a contrastive loss object on the tag distribution, checked against the recorded log_prob events;
+            sharp > 1 scales the log-density so that logits of different rows differ by thousands of nats (the cross-entropy is
+            still finite: the reference uses a stable logsumexp)"""
             k3 = jr.PRNGKey(int(r.integers(0, 2**31 - 1)))
             xt = np.arange(n, dtype=float) + 1.0
             x = jnp.asarray(np.stack([xt, 0.3 * xt - 1.0], 1))
             ct = 100.0 + np.arange(n, dtype=float)
             c = jnp.asarray(ct[:, None])
-            d = Tag(w=jnp.asarray([0.7, 1.3]))
+            wv = np.array([0.7, 1.3]) * sharp
+            d = Tag(w=jnp.asarray(wv))
             p, s = partition_trainable(d)
             del log[:]
             rec.evals += 1
@@ -205,7 +214,7 @@ def run_shard(shard):
             if set(by_row) != set(ct.tolist()):
                 v("contrastive.rows", f"log_prob was evaluated for condition rows {sorted(by_row)}, expected every row {ct.tolist()}", it)
                 return None
-            lp_np = lambda xi, ci: -0.5 * np.sum((xi * np.array([0.7, 1.3]) - ci * 0.01) ** 2)
+            lp_np = lambda xi, ci: -0.5 * np.sum((xi * wv - ci * 0.01) ** 2)
             prior_np = lambda xi: float(np.sum(-0.5 * (xi / 4.0) ** 2 - np.log(4.0) - 0.5 * np.log(2 * np.pi)))
             xrow = {float(t): np.asarray(x)[i] for i, t in enumerate(xt)}
             losses = []
@@ -223,6 +232,9 @@ def run_shard(shard):
                 con = [lp_np(xrow[t], ct[i]) - prior_np(xrow[t]) for t in others]
                 losses.append(-(pos - logsumexp(con + [pos])))
             ref = float(np.mean(losses))
+            if sharp != 1.0:
+                rec.count("contrastive_sharp_evaluations")
+                rec.maxi("contrastive_largest_reference_loss", ref)
             if not abs(got - ref) <= 1e-10 * (1 + abs(ref)):
                 v("contrastive.value", f"ContrastiveLoss = {got!r} but the softmax cross-entropy over the observed sets = {ref!r} (batch {n}, n_contrastive {nc})", it)
             if got < -1e-12:
@@ -246,6 +258,11 @@ def run_shard(shard):
                 okidx = idx.shape == (n, nc) and all(len(set(row.tolist())) == nc and i not in row and row.min() >= 0 and row.max() < n for i, row in enumerate(idx))
                 if not okidx:
                     v("contrastive.idxs", f"_get_contrastive_idxs(batch {n}, n {nc}) = {idx.tolist()} is not {nc} distinct other rows per row", it)
+        # sharply peaked conditional estimate: some contrastive logit exceeds the row's own by far more than log(float max)
+        for n, nc in [(5, 2), (8, 7), (4, 1)]:
+            it = {"loss": "contrastive-sharp", "batch": n, "n_contrastive": nc, "rep": rep, "origin": "generated"}
+            if check_contrastive(lambda nc_: ContrastiveLoss(prior, nc_), n, nc, it, sharp=30.0) is not None:
+                rec.nontrivial.add(chash("consharp", n, nc, rep, shard["shard"]))
         # histories: ONE loss object evaluated on a sequence of batches of different sizes (what fit_to_data does: training
         # batches, then a validation batch of another size) - every evaluation must satisfy the same definition
         for nc in ([1, 3] if stride != 1 else [1, 2, 3, 6]):
